@@ -293,3 +293,97 @@ T("C01", "twin-key-loop-enumerate", B, _RAW, _RAW.replace("for xorkey in xor_key
 T("C01", "twin-info-built-in-steps", B, _RAW,
   "        for xorkey in xor_keys:\n            for config_block in find_beacon_config_bytes(fobj, xorkey):\n                found = True\n"
   "                info = {\"xorkey\": xorkey}\n                info[\"xorencoded\"] = False\n                yield config_block, info\n")
+
+# ================================================================================================ R4 / R5: one search loop over a collection of file views
+# the two search phases merged into one loop over [(XorEncoded view, True), (raw file, False)]: view-major (every key on
+# the XorEncoded view, then every key on the raw file) is the documented order; key-major is not
+_VIEWS_HEAD = (
+    "    views = []\n"
+    "    if xordecode:\n"
+    "        try:\n"
+    "            views.append((cast(BinaryIO, XorEncodedFile.from_file(fobj)), True))\n"
+    "        except ValueError:\n"
+    "            pass\n"
+    "    views.append((fobj, False))\n"
+)
+_VIEW_MAJOR = (
+    "    for fh, xorencoded in {views}:\n"
+    "        if found:\n"
+    "            break\n"
+    "        for xorkey in xor_keys:\n"
+    "            for config_block in find_beacon_config_bytes(fh, xorkey):\n"
+    "                found = True\n"
+    "                yield config_block, {{\"xorkey\": xorkey, \"xorencoded\": {flag}}}\n"
+    "\n"
+    "    # Retry with left over xor keys if specified\n"
+    "    if not found and all_xor_keys:\n"
+)
+_KEY_MAJOR = (
+    "    for xorkey in xor_keys:\n"
+    "        for fh, xorencoded in {views}:\n"
+    "            if found and not xorencoded:\n"
+    "                continue\n"
+    "            for config_block in find_beacon_config_bytes(fh, xorkey):\n"
+    "                found = True\n"
+    "                yield config_block, {{\"xorkey\": xorkey, \"xorencoded\": xorencoded}}\n"
+    "\n"
+    "    # Retry with left over xor keys if specified\n"
+    "    if not found and all_xor_keys:\n"
+)
+_FXOR_OR_NONE = (
+    "    fxor = None\n"
+    "    if xordecode:\n"
+    "        try:\n"
+    "            fxor = cast(BinaryIO, XorEncodedFile.from_file(fobj))\n"
+    "        except ValueError:\n"
+    "            pass\n"
+)
+T("C01", "twin-views-merged-view-major", B, _PHASES, _VIEWS_HEAD + _VIEW_MAJOR.format(views="views", flag="xorencoded"))
+M("C01", "views-merged-raw-first", B, _PHASES,
+  _VIEWS_HEAD.replace("    views = []\n", "    views = [(fobj, False)]\n").replace("    views.append((fobj, False))\n", "") + _VIEW_MAJOR.format(views="views", flag="xorencoded"), "C01.R5")
+M("C01", "views-merged-flag-inverted", B, _PHASES, _VIEWS_HEAD + _VIEW_MAJOR.format(views="views", flag="not xorencoded"), "C01.R4")
+M("C01", "views-merged-ungated", B, _PHASES, _VIEWS_HEAD + _VIEW_MAJOR.format(views="views", flag="xorencoded").replace("        if found:\n            break\n", ""), "C01.R5")
+# literal tuple of views instead of a list grown by append(); the key loop outside the view loop
+M("C01", "views-tuple-literal-key-major", B, _PHASES,
+  "    fxor = cast(BinaryIO, XorEncodedFile.from_file(fobj))\n" + _KEY_MAJOR.format(views="((fxor, True), (fobj, False))"), "C01.R5")
+# two separate search sites, but interleaved per key
+M("C01", "phases-interleaved-per-key", B, _PHASES, _FXOR_OR_NONE +
+  "    for xorkey in xor_keys:\n"
+  "        if fxor is not None:\n"
+  "            for config_block in find_beacon_config_bytes(fxor, xorkey):\n"
+  "                found = True\n"
+  "                yield config_block, {\"xorkey\": xorkey, \"xorencoded\": True}\n"
+  "        if found:\n"
+  "            continue\n"
+  "        for config_block in find_beacon_config_bytes(fobj, xorkey):\n"
+  "            found = True\n"
+  "            yield config_block, {\"xorkey\": xorkey, \"xorencoded\": False}\n"
+  "\n"
+  "    # Retry with left over xor keys if specified\n"
+  "    if not found and all_xor_keys:\n", "C01.R5")
+
+# ================================================================================================ R10: key lists changed in place are private to the call
+_BYTELIST_DEF = "def make_byte_list(exclude: List[bytes] = None) -> List[bytes]:\n"
+_SORT = "        left_xor_keys.sort(key=lambda x: most_common_bytes.index(x) if x in most_common_bytes else 256)\n"
+# the left-over list kept in a hand-rolled module-level cache: the in-place frequency sort of the retry re-orders the stored list
+M("C01", "bytelist-module-level-cache", B, _BYTELIST, "", "C01.R10", edits=[
+    (B, _BYTELIST_DEF, "_LEFT_OVER_KEYS: Dict[frozenset, List[bytes]] = {}\n\n\n" + _BYTELIST_DEF),
+    (B, _BYTELIST, "    wanted = frozenset(exclude or [])\n    if wanted not in _LEFT_OVER_KEYS:\n"
+                   "        _LEFT_OVER_KEYS[wanted] = sorted({p8(x) for x in range(256)} - wanted)\n    return _LEFT_OVER_KEYS[wanted]\n"),
+])
+# ... or in a default argument
+M("C01", "bytelist-default-argument-cache", B, _BYTELIST, "", "C01.R10", edits=[
+    (B, _BYTELIST_DEF, "def make_byte_list(exclude: List[bytes] = None, _seen: dict = {}) -> List[bytes]:\n"),
+    (B, _BYTELIST, "    wanted = frozenset(exclude or [])\n    if wanted not in _seen:\n"
+                   "        _seen[wanted] = sorted({p8(x) for x in range(256)} - wanted)\n    return _seen[wanted]\n"),
+])
+# the keys that were tried are put last in the caller's / the default list itself instead of being excluded from a new list
+M("C01", "retry-reorders-tried-keys-in-place", B, _SORT, _SORT + "        xor_keys.sort(key=lambda x: most_common_bytes.index(x) if x in most_common_bytes else 256)\n", "C01.R10")
+# fresh objects spelled differently: sorted copy instead of list.sort, list built in steps, cached immutable table copied by the caller
+T("C01", "twin-retry-sorted-copy", B, _SORT, "        left_xor_keys = sorted(left_xor_keys, key=lambda x: most_common_bytes.index(x) if x in most_common_bytes else 256)\n")
+T("C01", "twin-bytelist-built-in-steps", B, _BYTELIST,
+  "    skip = set(exclude or [])\n    out = []\n    for x in range(256):\n        if p8(x) not in skip:\n            out.append(p8(x))\n    return out\n")
+T("C01", "twin-bytelist-cached-tuple-copied", B, _BYTELIST, "", edits=[
+    (B, _BYTELIST_DEF, "@functools.lru_cache(maxsize=None)\ndef _all_single_bytes() -> Tuple[bytes, ...]:\n    return tuple(p8(x) for x in range(256))\n\n\n" + _BYTELIST_DEF),
+    (B, _BYTELIST, "    skip = set(exclude or [])\n    return [k for k in _all_single_bytes() if k not in skip]\n"),
+])
